@@ -21,6 +21,10 @@ import (
 var c02Names = []string{
 	"tracker.net", "cdn.tracker.net", "ads.example.org", "edge.cdn-host.test", "a.edge.cdn-host.test",
 	"lb.example.com", "x.lb.example.com", "cname.specific", "Mixed.Tracker.NET",
+	// everything DNS allows in a name and miekg/dns packs, not only host-name syntax:
+	// underscores, leading / trailing hyphens, all-digit labels, a 63-byte label
+	"_dmarc.tracker.net", "a_b.tracker.net", "-lead.tracker.net", "trail-.tracker.net", "x.tracker.123", "123.456",
+	"_sip._tcp.lb.example.com", strings.Repeat("w", 63) + ".tracker.net", "UPPER_case.Ads.Example.ORG",
 }
 
 var c02V4 = []string{"1.2.3.4", "93.184.216.34", "10.0.0.5", "11.2.3.45", "0.0.0.1", "127.0.0.255", "192.0.2.1"}
@@ -204,6 +208,13 @@ func c02GenCase(r *rand.Rand) (c *c01Case) {
 	name := vutil.Pick(r, []string{"site.example.com", "www.site.example.com", "example.org", "whitelist.example.org", "Site.Example.COM"})
 	c.qname = name + "."
 	revealed := c02GenAnswer(r, c)
+	// the upstream's rcode is a dimension of its own: a negative or failed answer may
+	// still carry records (RFC 6604: a CNAME chain ending at a non-existent name)
+	c.urcode = vutil.Pick(r, []int{dns.RcodeSuccess, dns.RcodeSuccess, dns.RcodeSuccess, dns.RcodeSuccess, dns.RcodeSuccess,
+		dns.RcodeNameError, dns.RcodeNameError, dns.RcodeServerFailure, dns.RcodeRefused})
+	if c.urcode != dns.RcodeSuccess && r.IntN(4) == 0 {
+		c.uans = nil
+	}
 	pick := func() string {
 		if len(revealed) == 0 || r.IntN(8) == 0 {
 			return vutil.Pick(r, append(append([]string{}, c02Names...), c02V4...))
